@@ -1167,8 +1167,56 @@ func ruleFilterDerivationComplete(w *World, r *Report) {
 				}
 			}
 			sort.Strings(missing)
-			if len(missing) == 0 {
-				r.OK(key, w.FnPos(m), fmt.Sprintf("%d field(s) read by the membership test, all stored into the derived filter", len(reads)))
+			// the parent's state is copied in before any key is added: a whole-field overwrite of the derived filter after
+			// keys went in (through Add, or through a constructor that was given elements) drops what those keys had set
+			late := ""
+			for _, b := range m.Blocks {
+				for _, ins := range b.Instrs {
+					st, ok := ins.(*ssa.Store)
+					if !ok {
+						continue
+					}
+					fa, ok := st.Addr.(*ssa.FieldAddr)
+					if !ok || fa.X == ssa.Value(m.Params[0]) || namedOf(fa.X.Type()) != t {
+						continue
+					}
+					_, f := fieldOfAddr(fa)
+					if f == nil || !reads[f] {
+						continue
+					}
+					obj := fa.X
+					// key-adding events on obj that can run before the store
+					for _, b2 := range m.Blocks {
+						for _, i2 := range b2.Instrs {
+							c, ok := i2.(*ssa.Call)
+							if !ok {
+								continue
+							}
+							adds := false
+							if cal := c.Common().StaticCallee(); cal != nil && cal.Name() == "Add" && len(c.Common().Args) > 0 && sameObject(c.Common().Args[0], obj) {
+								adds = true
+							}
+							if sameObject(c, obj) || producedBy(obj, c) {
+								for _, a := range c.Common().Args {
+									if cst, isC := a.(*ssa.Const); !isC || !cst.IsNil() {
+										adds = true // a constructor that was handed elements
+									}
+								}
+							}
+							if !adds {
+								continue
+							}
+							if (b2 == b && instrIndex(i2) < instrIndex(ins)) || (b2 != b && blockReaches(b2, b)) {
+								late = fmt.Sprintf("%s: field %s of the derived filter is overwritten with the parent's after keys were added at %s", w.InstrPos(ins), f.Name(), w.InstrPos(i2))
+							}
+						}
+					}
+				}
+			}
+			if late != "" {
+				r.Bad(key, w.FnPos(m), late+": whatever those keys had set in it is lost, and the membership test reports them absent")
+			} else if len(missing) == 0 {
+				r.OK(key, w.FnPos(m), fmt.Sprintf("%d field(s) read by the membership test, all stored into the derived filter before any key is added", len(reads)))
 			} else {
 				r.Bad(key, w.FnPos(m), fmt.Sprintf("the membership test reads %s, which this method never stores into the filter it returns: keys inherited from the parent can be reported absent", strings.Join(missing, ", ")))
 			}
@@ -1393,3 +1441,33 @@ func ruleMembershipByBytes(w *World, r *Report) {
 	}
 	r.Expect("BytesFilter implementations", n, 1)
 }
+
+// sameObject: a and b denote the same object up to type assertions and interface conversions.
+func sameObject(a, b ssa.Value) bool {
+	strip := func(v ssa.Value) ssa.Value {
+		for i := 0; i < 6; i++ {
+			switch x := v.(type) {
+			case *ssa.TypeAssert:
+				v = x.X
+			case *ssa.MakeInterface:
+				v = x.X
+			case *ssa.ChangeInterface:
+				v = x.X
+			case *ssa.Extract:
+				if ta, ok := x.Tuple.(*ssa.TypeAssert); ok && x.Index == 0 {
+					v = ta.X
+				} else {
+					return v
+				}
+			default:
+				return v
+			}
+		}
+		return v
+	}
+	return strip(a) == strip(b)
+}
+
+// producedBy: obj is the (type-asserted) result of call c.
+func producedBy(obj ssa.Value, c *ssa.Call) bool { return sameObject(obj, c) }
+
